@@ -13,7 +13,10 @@ RULE = (
     'enum: every string of length <= 4 (quick) / <= 5 (thorough) over the 19-symbol escape alphabet, each run with '
     'multiline in {False, True}, two tokenizer option sets and chunked deliveries (fixed blocks; per character and blocks '
     'with zero-length chunks at every cut point); long: a short generated unit (with escapes) repeated to lengths around '
-    '4096/8192/12288/16384/65536 and random lengths 8192..40000, as str, in blocks and embedded in a KeyValues line; random: Hypothesis text (<= 300 chars) mixing all Unicode '
+    '4096/8192/12288/16384/65536 and random lengths 8192..40000, as str, in blocks and embedded in a KeyValues line; '
+    'kv2file: long values of 2/3/4-byte characters and escapes exported with Element.export_kv2 (unicode format/silent/ascii) at '
+    'byte shifts 0..3 and read back with Element.parse from a binary file; every case is preceded by a generated earlier '
+    'use of the library (single_block parse, abandoned push_back/peek, tokenizer stopped by an error, IterTokenizer); random: Hypothesis text (<= 300 chars) mixing all Unicode '
     'scalar values with that alphabet; embed: generated KeyValues/VMF/BSP-entity/DMX-KV2 style lines holding several '
     'escaped strings between operators, bare words, flags and comments, tokenized with the option set that format\'s '
     'parser uses. non-trivial = a string contains a character that must be escaped (" \\ CR LF TAB \\v \\b \\f \\a); '
@@ -24,6 +27,9 @@ ASSUMPTIONS = [
     'the text is tokenized with allow_escapes=True (statement); the other six options must not matter inside quotes',
     'pure-Python Tokenizer/escape_text only (no Cython build possible in this sandbox)',
     'embedding: bare words / flags around the strings use only [A-Za-z0-9_.$%-]; a separator is forced next to bare words',
+    'kv2file: unicode="ascii" documents carry only the ASCII characters of the generated strings (the mode is documented to reject '
+    'others); unicode="silent" files are parsed with unicode=True as documented; attribute names are plain identifiers',
+    'pre-steps are complete, legal uses of the public API (their own expected TokenSyntaxError/KeyValError is caught)',
 ]
 LEVEL_TEXT = ('Exhaustive over all strings up to length 4 (quick) / 5 (thorough) on the 19 escape-relevant symbols in both '
               'escaping modes, plus generated-input search over Unicode text and over strings embedded in larger lines; '
@@ -49,6 +55,56 @@ FORMAT_OPTS = {
     'bsp': dict(allow_escapes=True),
     'kv2': dict(allow_escapes=True),
 }
+
+
+PRE_KINDS = ['none', 'single_block', 'pushback_abandoned', 'peek_abandoned', 'stopped_mid_string', 'itertokenizer_abandoned',
+             'parse_error']
+
+
+def run_pre(desc, ctx) -> None:
+    """An earlier, unrelated and perfectly legal use of the library in the same process, finished or abandoned before the
+    judged tokenization starts - the law is about every string, whatever the process did before."""
+    from srctools.keyvalues import Keyvalues, KeyValError
+    from srctools.tokenizer import IterTokenizer, Token, Tokenizer, TokenSyntaxError
+    pre = desc.get('pre', 'none') if isinstance(desc, dict) else 'none'
+    ctx.label('pre:' + pre)
+    if pre == 'single_block':
+        # documented to return right after the first keyvalue / block, its tokenizer is dropped with tokens left
+        Keyvalues.parse('"skyname" "sky_day01_01"\n"other" "value"\n', single_block=True)
+        Keyvalues.parse('"Blk"\n{\n"a" "b"\n}\n"Other" "x"', single_block=True)
+    elif pre == 'pushback_abandoned':
+        tok = Tokenizer('a } "c"')
+        tok()
+        tok.push_back(Token.BRACE_CLOSE, '}')
+        tok.push_back(Token.STRING, 'stale')
+        del tok
+    elif pre == 'peek_abandoned':
+        tok = Tokenizer('"peeked" {')
+        tok.peek()
+        del tok
+    elif pre == 'stopped_mid_string':
+        tok = Tokenizer(['"first" "unterminated \\', 'n text'])
+        tok()
+        try:
+            tok()
+            raise AssertionError('harness: unterminated string accepted')
+        except TokenSyntaxError:
+            pass
+        tok2 = Tokenizer('"a" "b" { }')
+        tok2()
+        del tok, tok2
+    elif pre == 'itertokenizer_abandoned':
+        it = IterTokenizer([(Token.STRING, 'x'), (Token.BRACE_OPEN, '{'), (Token.STRING, 'y')])
+        it()
+        it.peek()
+        it.push_back(Token.NEWLINE)
+        del it
+    elif pre == 'parse_error':
+        try:
+            Keyvalues.parse('"a" "b" "c"\n')
+            raise AssertionError('harness: bad KeyValues accepted')
+        except KeyValError:
+            pass
 
 
 def raw_quote_at(e: str) -> int:
@@ -118,13 +174,16 @@ def check_string(ctx, s: str, multiline: bool, opts: dict, tag: str) -> None:
 
 def enum_cases(tier: str):
     max_len = 4 if tier == 'quick' else 5
+    i = 0
     for n in range(max_len + 1):
         for tup in itertools.product(ALPHABET, repeat=n):
-            yield {'s': ''.join(tup)}
+            i += 1
+            yield {'s': ''.join(tup), 'pre': PRE_KINDS[i % len(PRE_KINDS)]}
 
 
 def execute_string(desc, ctx):
     s = desc['s']
+    run_pre(desc, ctx)
     ctx.nontrivial(not MUST_ESCAPE.isdisjoint(s))
     if '\\' in s:
         ctx.label('has_backslash')
@@ -193,7 +252,7 @@ def string_strategy(max_size: int = 300):
 
 
 def random_cases(tier: str):
-    return st.fixed_dictionaries({'s': string_strategy(300)})
+    return st.fixed_dictionaries({'s': string_strategy(300), 'pre': st.sampled_from(PRE_KINDS)})
 
 
 # ------------------------------------------------------------------ (b2) long strings at size boundaries
@@ -233,7 +292,7 @@ def long_cases(tier: str):
                      st.text(st.sampled_from(ALPHABET), min_size=1, max_size=6))
     return st.fixed_dictionaries({
         'unit': unit, 'n': n, 'prefix': st.text(char_strategy(), max_size=5),
-        'block': st.sampled_from([0, 0, 1000, 4096, 8192]),
+        'block': st.sampled_from([0, 0, 1000, 4096, 8192]), 'pre': st.sampled_from(PRE_KINDS),
     })
 
 
@@ -242,6 +301,7 @@ def execute_long(desc, ctx):
     from srctools.tokenizer import escape_text
     s = build_long(desc)
     n = len(s)
+    run_pre(desc, ctx)
     for b in BOUNDARIES:
         if abs(n - b) <= 2:
             ctx.label(f'long:{b}+-2')
@@ -277,6 +337,93 @@ def execute_long(desc, ctx):
                         else f'tree shape differs: {str(got)[:300]!r}'), multiline=multiline)
 
 
+# ------------------------------------------------------------------ (b3) DMX KeyValues2 embedding as a binary file
+
+KV2_UNITS = ['é', '日', '\U0001f600', 'a\\"é日\U0001f600\n', 'é日', 'ab\U0001f600', 'x\té\\n日"', 'aé', '日本語のテキスト ☃ \U0001f600 ']
+KV2_BLOCKS = (4096, 8192, 65536)
+
+
+def kv2_fixed(tier: str):
+    """Long values of 2-, 3-, 4-byte and mixed characters; each descriptor is exported at byte shifts 0..3."""
+    for i, (unit, n) in enumerate([('é', 9000), ('日', 6000), ('\U0001f600', 4500), ('a\\"é日\U0001f600\n', 9000),
+                                   ('\U0001f600', 20000), ('日本語のテキスト ☃ \U0001f600 ', 18000)]):
+        yield {'unit': unit, 'n': n, 'prefix': '', 'mode': ['format', 'silent'][i % 2], 'arr': ['tail "v"\t\\', unit * 3],
+               'name': 'elem', 'pre': 'none'}
+
+
+def kv2_cases(tier: str):
+    unit = st.one_of(st.sampled_from(KV2_UNITS), st.text(char_strategy(), min_size=1, max_size=10),
+                     st.text(st.sampled_from(ALPHABET + ['é', '日', '\U0001f600']), min_size=1, max_size=6))
+    short = string_strategy(12)
+    return st.fixed_dictionaries({
+        'unit': unit,
+        'n': st.one_of(st.integers(0, 300), st.integers(2000, 12000), st.integers(2000, 12000), st.integers(12000, 36000)),
+        'prefix': st.text(char_strategy(), max_size=5),
+        'mode': st.sampled_from(['format', 'format', 'silent', 'ascii']),
+        'arr': st.lists(short, max_size=4),
+        'name': short,
+        'pre': st.sampled_from(PRE_KINDS),
+    })
+
+
+def execute_kv2file(desc, ctx):
+    """The DMX-KV2 embedding as its real route: Element.export_kv2() writes '"' + escape_text(s) + '"' into a binary file,
+    Element.parse() reads the binary file back.  The value, the array items and the element name must come back exactly,
+    wherever the bytes of the string fall in the file (the same document is written at byte shifts 0..3)."""
+    import io
+    from srctools.dmx import Attribute, Element
+    mode = desc['mode']
+    run_pre(desc, ctx)
+
+    def legal(x: str) -> str:
+        # unicode='ascii' is documented to reject non-ASCII values: there the same strings without those characters
+        return ''.join(ch for ch in x if ord(ch) < 128) if mode == 'ascii' else x
+    s = legal(build_long(desc))
+    arr = [legal(x) for x in desc['arr']]
+    name = legal(desc['name'])
+    ctx.label('kv2file:mode:' + mode)
+    widths = {len(ch.encode('utf8')) for ch in s[:64]}
+    for w in sorted(widths - {1}):
+        ctx.label(f'kv2file:{w}-byte_chars')
+    ctx.nontrivial(len(s) >= 1000 and not MUST_ESCAPE.isdisjoint(s + ''.join(arr)) or len(widths - {1}) > 0 and len(s) >= 1000)
+    for shift in range(4):
+        root = Element(name, 'DmElement')
+        root['pad'] = Attribute.string('pad', 'x' * shift)
+        root['comment'] = Attribute.string('comment', s)
+        root['arr'] = Attribute.array('arr', root['comment'].type, list(arr) + [s[:50]])
+        root['after'] = Attribute.string('after', 'tail "value"\t\\')
+        buf = io.BytesIO()
+        root.export_kv2(buf, 'verif', 1, unicode=mode)
+        data = buf.getvalue()
+        if shift == 0:
+            if len(data) > 8192:
+                ctx.label('kv2file:bytes>8192')
+            if len(data) > 65536:
+                ctx.label('kv2file:bytes>65536')
+        # measured, not assumed: does a multi-byte character straddle a block boundary (absolute or counted after the header)?
+        header = data.find(b'-->') + 3
+        for blk in KV2_BLOCKS:
+            for base in (0, header):
+                if any(0x80 <= data[off] <= 0xBF for off in range(base + blk, len(data), blk)):
+                    ctx.label(f'kv2file:char_straddles_{blk}_block')
+                    break
+        for unicode_arg in ((True,) if mode == 'silent' else (False, True) if shift == 0 else (False,)):
+            parsed, fmt_name, fmt_ver = Element.parse(io.BytesIO(data), unicode=unicode_arg)
+            got = parsed['comment'].val_str
+            if got != s:
+                where = next((i for i, (a, b) in enumerate(zip(got, s)) if a != b), min(len(got), len(s)))
+                ctx.fail('embedded_kv2_file', f'mode={mode} shift={shift} parse(unicode={unicode_arg}): string attribute of '
+                         f'{len(s)} characters read back with {len(got)}, first difference at {where}: got '
+                         f'{got[where:where + 30]!r} want {s[where:where + 30]!r} (unit {desc["unit"]!r})', mode=mode)
+            got_arr = list(parsed['arr'].iter_str())
+            ctx.check(got_arr == arr + [s[:50]], 'embedded_kv2_file',
+                      f'mode={mode} shift={shift}: string array read back as {got_arr!r}, want {arr + [s[:50]]!r}', mode=mode)
+            ctx.check(parsed.name == name and parsed['after'].val_str == 'tail "value"\t\\' and parsed['pad'].val_str == 'x' * shift,
+                      'embedded_kv2_file', f'mode={mode} shift={shift}: element name {parsed.name!r} (want {name!r}) / neighbours '
+                      f'{parsed["after"].val_str!r} {parsed["pad"].val_str!r} changed', mode=mode)
+            ctx.check((fmt_name, fmt_ver) == ('verif', 1), 'embedded_kv2_file', f'format header read back as {(fmt_name, fmt_ver)!r}')
+
+
 # ------------------------------------------------------------------ (c) embedding
 
 WORD_CHARS = 'abcXYZ019_.$%-'
@@ -304,6 +451,7 @@ def embed_cases(tier: str):
         'items': st.lists(item, min_size=1, max_size=12),
         'seps': seps,
         'pairs': st.lists(st.tuples(s, s).map(list), min_size=1, max_size=5),
+        'pre': st.sampled_from(PRE_KINDS),
     })
 
 
@@ -373,6 +521,7 @@ def execute_embed(desc, ctx):
     fmt = desc['fmt']
     multiline = desc['multiline']
     ctx.label('fmt:' + fmt, 'multiline' if multiline else 'singleline')
+    run_pre(desc, ctx)
     if fmt == 'kvparse':
         return execute_kvparse(desc, ctx)
     opts = FORMAT_OPTS[fmt]
@@ -454,17 +603,27 @@ def execute_kvparse(desc, ctx):
 SUBCHECKS = [
     Sub('enum', execute_string, enumerate=enum_cases, quick_shards=16, thorough_shards=64, floor=100000,
         must_hit=('trailing_backslash', 'backslash_then_linebreak', 'backslash_then_escape_letter', 'crlf', 'lone_cr',
-                  'has_quote', 'delivery:empty_chunk_at_every_cut')),
+                  'has_quote', 'delivery:empty_chunk_at_every_cut',
+                  'pre:none', 'pre:single_block', 'pre:pushback_abandoned', 'pre:peek_abandoned', 'pre:stopped_mid_string',
+                  'pre:itertokenizer_abandoned', 'pre:parse_error')),
     Sub('random', execute_string, strategy=random_cases, quick=20000, thorough=500000, quick_shards=16,
-        floor=2000, must_hit=('non_ascii', 'astral', 'len>64', 'has_backslash', 'has_quote', 'crlf', 'trailing_backslash')),
+        floor=2000, must_hit=('non_ascii', 'astral', 'len>64', 'has_backslash', 'has_quote', 'crlf', 'trailing_backslash',
+                  'pre:none', 'pre:single_block', 'pre:pushback_abandoned', 'pre:peek_abandoned', 'pre:stopped_mid_string',
+                  'pre:itertokenizer_abandoned', 'pre:parse_error')),
     Sub('long', execute_long, strategy=long_cases, fixed=long_fixed, quick=192, thorough=6000, quick_shards=16, floor=60,
         must_hit=('long:4096+-2', 'long:8192+-2', 'long:12288+-2', 'long:16384+-2', 'long:65536+-2', 'long:>=8192',
                   'long:>=12288', 'long:>16384', 'long:escaped_form_at_boundary', 'long:delivered_in_blocks',
                   'long:embedded_kv_value')),
+    Sub('kv2file', execute_kv2file, strategy=kv2_cases, fixed=kv2_fixed, quick=96, thorough=3000, quick_shards=16, floor=30,
+        must_hit=('kv2file:mode:format', 'kv2file:mode:silent', 'kv2file:mode:ascii', 'kv2file:bytes>8192', 'kv2file:bytes>65536',
+                  'kv2file:2-byte_chars', 'kv2file:3-byte_chars', 'kv2file:4-byte_chars', 'kv2file:char_straddles_4096_block',
+                  'kv2file:char_straddles_8192_block', 'kv2file:char_straddles_65536_block', 'pre:single_block')),
     Sub('embed', execute_embed, strategy=embed_cases, quick=8000, thorough=200000, quick_shards=16,
         floor=1000, must_hit=('fmt:kv', 'fmt:vmf', 'fmt:bsp', 'fmt:kv2', 'fmt:kvparse', 'multiline', 'singleline',
                               'value_has_quote', 'value_trailing_backslash', 'value_has_linebreak', 'key_has_linebreak',
-                              'delivery:empty_chunk_at_every_cut')),
+                              'delivery:empty_chunk_at_every_cut',
+                  'pre:none', 'pre:single_block', 'pre:pushback_abandoned', 'pre:peek_abandoned', 'pre:stopped_mid_string',
+                  'pre:itertokenizer_abandoned', 'pre:parse_error')),
 ]
 
 MATCHERS = {}
